@@ -56,6 +56,23 @@ pub fn gen_cmd(rng: &mut Rng, w: &CliWorld) -> Cmd {
     (lang, p.to_string())
   };
   let mut cmd = gen_cmd_base(rng, roll, &run_pat);
+  // partial rule sets
+  if cmd.is_scan {
+    let standalone = w.standalone_rule_files();
+    match rng.below(10) {
+      0 if !standalone.is_empty() => cmd.args.extend([s("-r"), rng.pick(&standalone).clone()]),
+      1 => {
+        // a filter that keeps at least one rule: a piece of an existing rule id
+        let ids: Vec<String> = w.all_rules().iter().filter(|r| r.severity.as_deref() != Some("off")).map(|r| r.id.clone()).collect();
+        if !ids.is_empty() {
+          let id = rng.pick(&ids);
+          let piece: String = id.chars().take(rng.range(2, 6)).collect();
+          cmd.args.push(format!("--filter={piece}"));
+        }
+      }
+      _ => {}
+    }
+  }
   // context lines are a per-file matter too
   match rng.below(10) {
     0 => cmd.args.extend([s("-C"), s("1")]),
@@ -120,6 +137,13 @@ fn canon(v: &Value) -> String {
 pub fn parse_output(cmd: &Cmd, out: &CliOutcome) -> Result<Observed, String> {
   let text = String::from_utf8(out.stdout.clone()).map_err(|e| format!("stdout is not UTF-8: {e}"))?;
   let mut o = Observed::default();
+  if let (Err(e), None) = (&out.result, out.diagnostic_errors()) {
+    if text.trim().is_empty() {
+      // the command failed before printing anything (bad argument, no rule left, ...)
+      o.failed = Some(e.clone());
+      return Ok(o);
+    }
+  }
   match cmd.mode.as_str() {
     "stream" => {
       for line in text.split('\n') {
@@ -323,7 +347,19 @@ pub fn eval_plan(env: &Env, w: &CliWorld, cmd: &Cmd, plan: &Plan, baselines: &mu
   };
   let wanted_langs: Vec<String> = if cmd.is_scan {
     // rules switched off are dropped at load time and do not contribute a file type
-    let mut v: Vec<String> = w.all_rules().iter().filter(|r| r.severity.as_deref() != Some("off")).map(|r| r.language.clone()).collect();
+    // `-r FILE` restricts the rule set to that file, `--filter RE` to the ids matching RE
+    // (the generated filters are plain substrings joined by `|`)
+    let rfile = cmd.args.iter().position(|a| a == "-r").map(|i| cmd.args[i + 1].clone());
+    let filter = cmd.args.iter().find_map(|a| a.strip_prefix("--filter=").map(|x| x.to_string()));
+    let in_file = |id: &str| match &rfile {
+      None => true,
+      Some(f) => w.rule_dirs.iter().any(|d| d.files.iter().any(|x| format!("{}/{}", d.name, x.name) == *f && x.docs.iter().any(|r| r.id == id))),
+    };
+    let passes = |id: &str| match &filter {
+      None => true,
+      Some(re) => re.split('|').any(|alt| id.contains(alt)),
+    };
+    let mut v: Vec<String> = w.all_rules().iter().filter(|r| r.severity.as_deref() != Some("off") && in_file(&r.id) && passes(&r.id)).map(|r| r.language.clone()).collect();
     v.sort();
     v.dedup();
     v
